@@ -102,6 +102,7 @@ def shrink_case(path, j, prop, budget=160, repeat=False):
         return path
     tmp = path + '.try'
     calls = [0]
+    before_line = ('before: %s\n' % c['before']) if 'before' in c else ''
 
     env = san_env(j.replay_flavour)
     if not repeat:
@@ -113,7 +114,7 @@ def shrink_case(path, j, prop, budget=160, repeat=False):
             return False
         calls[0] += 1
         with open(tmp, 'w') as f:
-            f.write('property: %s\ndriver: %s\ncampaign: %s\naux: %s\ndata: %s\nnote: shrinking candidate\n' % (prop, c.get('driver', ''), c.get('campaign', ''), c.get('aux', '0 0 0 0'), d.hex()))
+            f.write('property: %s\ndriver: %s\ncampaign: %s\naux: %s\ndata: %s\n%snote: shrinking candidate\n' % (prop, c.get('driver', ''), c.get('campaign', ''), c.get('aux', '0 0 0 0'), d.hex(), before_line))
         try:
             r = subprocess.run([vbuild.binpath(j.replay_flavour, j.replay_bin), '--prop', prop, '--replay', tmp], stdout=subprocess.PIPE, stderr=subprocess.STDOUT, env=env, cwd=VERIF, timeout=120)
             return r.returncode != 0
@@ -152,8 +153,8 @@ def shrink_case(path, j, prop, budget=160, repeat=False):
         return path
     out = path[:-5] + '.min.case' if path.endswith('.case') else path + '.min'
     with open(out, 'w') as f:
-        f.write('property: %s\ndriver: %s\ncampaign: %s\naux: %s\ndata: %s\nnote: (shrunk by delta debugging from %s, %d replays) %s\n' % (
-            prop, c.get('driver', ''), c.get('campaign', ''), c.get('aux', '0 0 0 0'), data.hex(), os.path.basename(path), calls[0], c.get('note', '')))
+        f.write('property: %s\ndriver: %s\ncampaign: %s\naux: %s\ndata: %s\n%snote: (shrunk by delta debugging from %s, %d replays) %s\n' % (
+            prop, c.get('driver', ''), c.get('campaign', ''), c.get('aux', '0 0 0 0'), data.hex(), before_line, os.path.basename(path), calls[0], c.get('note', '')))
     return out
 
 
